@@ -1,4 +1,5 @@
 # C02  Emitted frames match the protocol's published IRP timing specification
+import random
 import json
 
 import engine
@@ -287,6 +288,38 @@ def oracle(ctx, protos, asts, models, per):
                         break
                 if bad or skipped:
                     break
+            # a protocol whose emitted signal has another LENGTH than the specification (frames sent twice, another repeat structure)
+            # is still compared duration by duration over the common prefix, for every assignment: a value-dependent deviation
+            # (a wrong checksum for some operands) must not hide behind the structural one
+            if bad and not again and bad[2] and bad[2].startswith('number'):
+                pre = []
+                asgs = gen_inputs.param_assignments(p, random.Random(7), max(per, 12))       # own generator: does not shift the run's sample
+                for asg2 in asgs:
+                    c2, e2 = engine.fresh_encode(p, asg2, repeat_count=0)
+                    if c2 is None:
+                        continue
+                    lib2 = merge([x for f in c2.normalized_rlc for x in f])
+                    env2 = {}
+                    try:
+                        for v in params:
+                            env2[v] = asg2[inv[v]] if v in inv else int(c2._data[v])
+                        sig2 = irp.render(ast, env2, 1)
+                    except Exception:  # noqa
+                        continue
+                    m2 = min(len(sig2), len(lib2)) - 1
+                    dev = [j for j in range(max(m2, 0)) if abs(lib2[j] - sig2[j][0]) >= sig2[j][1] + 1]
+                    ctx.count_eval(key=(name, tuple(sorted(asg2.items())), 'prefix'))
+                    pre.append((asg2, dev[0] if dev else None, lib2))
+                devs = [x for x in pre if x[1] is not None]
+                if pre and devs:
+                    hits[name] = True
+                    asg2, j, lib2 = devs[0]
+                    info = dict(asg2)
+                    info['n'] = 0
+                    info['sig'] = 'prefix:' + ('every assignment' if len(devs) == len(pre) else 'some assignments')
+                    ctx.report(name, 'emitted signal differs from the specification: duration within the common prefix', info,
+                               dict(protocol=name, params=asg2, repeat_count=0, position=j, assignments_compared=len(pre),
+                                    assignments_deviating=len(devs), emitted=lib2[:80], irp=p['cls'].irp))
             if bad and again and first_cls is not None and bad[4] == 'again:' + first_cls:
                 bad = None          # the deviation of the first pass again: one defect, reported once
                 skipped = None
